@@ -110,8 +110,15 @@ pub fn run(ctx: &mut Ctx) {
         let nn = n as i64;
         for i in [0i64, 1, nn / 2, nn - 1, nn, -1] {
             ctx.edge();
-            ctx.check("in:size-probe:array", &json!({"in": [i, long]}), &null);
-            ctx.check("in:size-probe:array:float", &json!({"in": [i as f64, {"var": "h"}]}), &json!({"h": long}));
+            // needle spelling (integer / float / string twin) x needle channel x haystack channel
+            let dh = json!({"h": long, "n": i, "f": i as f64});
+            for nd in [json!(i), json!(i as f64), json!(i.to_string()), json!({"var": "n"}), json!({"var": "f"})] {
+                ctx.check("in:size-probe:array:LL", &json!({"in": [nd, long]}), &dh);
+                ctx.check("in:size-probe:array:LV", &json!({"in": [nd, {"var": "h"}]}), &dh);
+            }
+            let longf: Vec<Value> = (0..n).map(|i| json!(i as f64)).collect();
+            ctx.check("in:size-probe:array:float-haystack", &json!({"in": [i, longf]}), &null);
+            ctx.check("in:size-probe:array:float-haystack:V", &json!({"in": [{"var": "n"}, {"var": "h"}]}), &json!({"h": longf, "n": i}));
             ctx.check("in:size-probe:nested", &json!({"in": [[i], {"var": "h"}]}), &json!({"h": long.iter().map(|v| json!([v])).collect::<Vec<_>>()}));
         }
         let st: String = (0..n).map(|i| ['a', 'é', '水', '😀', 'b'][i % 5]).collect();
@@ -163,6 +170,21 @@ pub fn run(ctx: &mut Ctx) {
             ctx.check("in:V", &json!({"in": [{"var": "n"}, {"var": "h"}]}), &json!({"n": n, "h": h}));
         }
     }
+    // magnitude ladder: every pair of numbers around every integer-width boundary, as element and
+    // as nested element; distinct numbers must stay distinct however large they are
+    {
+        let lad = al::magnitude_ladder();
+        for a in &lad {
+            if !ctx.mine() {
+                continue;
+            }
+            for b in &lad {
+                ctx.edge();
+                ctx.check("in:ladder:L", &json!({"in": [a, [0, b]]}), &null);
+                ctx.check("in:ladder:nested:V", &json!({"in": [{"var": "n"}, {"var": "h"}]}), &json!({"n": [a], "h": [{"k": a}, [b]]}));
+            }
+        }
+    }
     // substring tests over characters that share UTF-8 lead bytes (é/ü, 水/氵, 😀/😁) and ASCII
     {
         let letters = ['a', 'é', 'ü', '水', '氵', '😀', '😁'];
@@ -203,4 +225,5 @@ pub fn run(ctx: &mut Ctx) {
             ctx.check("in:substring", &json!({"in": [t, s]}), &null);
         }
     }
+    crate::spaces::render_probes(ctx, &["merge", "in"]);
 }
